@@ -66,7 +66,7 @@ def list_observables(dic):
             out.append((oid, "call"))
         if isinstance(obj, Model):
             for acc in ("rates", "probabilities", "branch_lengths", "node_heights", "q", "frequencies", "precision_matrix", "p_t"):
-                if hasattr(type(obj), acc) or hasattr(obj, acc):
+                if hasattr(type(obj), acc):
                     out.append((oid, acc))
             out.append((oid, "sample_shape"))
     return out
@@ -116,17 +116,13 @@ def same(a, b):
         return a[1] == b[1]
     x, y = a[1], b[1]
     if x.shape != y.shape:
-        # a value cached before its inputs acquired a sample dimension of size one (e.g. a
-        # constant [1.0] vs [[1.0]]) broadcasts to the same thing: not a stale *value*
-        def core(t):
-            sh = list(t.shape)
-            while len(sh) > 1 and sh[0] == 1:
-                sh = sh[1:]
-            return sh
-
-        if core(x) != core(y):
+        # a value cached before its inputs acquired a sample dimension (e.g. the constant
+        # [1.0] vs [[1.0], [1.0]]) is the same value wherever it is used if both broadcast to
+        # one shape and agree there; rows that ought to differ would not survive this test
+        try:
+            x, y = torch.broadcast_tensors(x, y)
+        except RuntimeError:
             return False
-        x, y = x.reshape(core(x)), y.reshape(core(y))
     if x.dtype != y.dtype:
         return False
     if x.numel() == 0:
@@ -271,8 +267,8 @@ class History:
             return self.abort_eval(op)
         self.stats["updates"] += 1
         target = self.dic.get(op.get("id"))
-        self.last_update = "%s on %s(%s)" % (kind, type(target).__name__, op.get("id"))
-        self.last_update_kind = self.role_of(target)
+        self.last_update = "%s on %s(%s)" % (kind, type(target).__name__, op.get("id") if kind != "assign_many" else "S=%s" % op.get("S"))
+        self.last_update_kind = self.role_of(target) if kind != "assign_many" else "batch"
         vals_before = self.base_values()
         try:
             self.apply_raw(op)
@@ -313,6 +309,10 @@ class History:
             if kind in ("assign", "assign_view", "assign_cat", "assign_transformed"):
                 t = torch.tensor(op["values"], dtype=getattr(torch, op["dtype"]))
                 target.tensor = t
+            elif kind == "assign_many":
+                # switch every updatable parameter between [n] and [S, n] in one go
+                for pid in sorted(op["values"]):
+                    self.dic[pid].tensor = torch.tensor(op["values"][pid], dtype=getattr(torch, op["dtypes"][pid]))
             elif kind == "inplace":
                 with torch.no_grad():
                     target.tensor.add_(torch.tensor(op["delta"], dtype=target.tensor.dtype))
@@ -515,6 +515,7 @@ def generate(seed, index, tier):
             derived["transformed"].append(oid)
     dists = [oid for oid, o in dic.items() if isinstance(o, Distribution) and recipe.get("draw", True)]
     upd = [p for p in domains if p in base]
+    base_shapes = {p: tuple(base[p].tensor.shape) for p in upd}
     n_ops = k.randint(8, 50)
     policy = k.choice(["all", "leaf", "root", "random", "random", "child-sibling-parent"])
     scale = k.choice([0.01, 0.1, 0.1, 0.5])
@@ -573,7 +574,10 @@ def generate(seed, index, tier):
 
             for p in under:
                 vals[p] = _t.tensor(perturb(w, vals[p], domains[p], scale), dtype=vals[p].dtype)
-            fr = freshlib.build(freshlib.substitute(spec, vals))
+            try:
+                fr = freshlib.build(freshlib.substitute(spec, vals))
+            except Exception:  # noqa: BLE001 - mixed batched/unbatched state: no valid value to assign
+                continue
             t = fr[oid].tensor.detach()
             op = {"op": "assign_" + kind, "id": oid, "values": t.tolist(), "dtype": str(t.dtype).split(".")[-1]}
         elif u < 0.82 and dists:
@@ -589,6 +593,29 @@ def generate(seed, index, tier):
             pid = w.choice(cands)
             oper = {"real": "sliding", "positive": "scaler", "simplex": "dirichlet"}[domains[pid]]
             op = {"op": "propose", "id": pid, "operator": oper, "seed": w.next64() & 0x7FFFFFFF, "then": w.choice(["accept", "reject", "reject"])}
+        elif u < 0.945 and recipe.get("batch", True):
+            # batch / unbatch: a leading sample dimension on every updatable parameter
+            vals, dts = {}, {}
+            batched_now = any(current(p).dim() > len(base_shapes[p]) for p in upd)
+            S = 0 if batched_now and w.bernoulli(0.6) else w.randint(1, 3)
+            okshape = True
+            for p in upd:
+                t = current(p).detach()
+                row = t[(0,) * (t.dim() - len(base_shapes[p]))] if t.dim() > len(base_shapes[p]) else t
+                if tuple(row.shape) != base_shapes[p]:
+                    okshape = False
+                    break
+                if S == 0:
+                    new = row
+                else:
+                    import torch as _t
+
+                    new = _t.stack([_t.tensor(perturb(w, row, domains[p], scale), dtype=row.dtype) for _ in range(S)])
+                vals[p] = new.tolist()
+                dts[p] = str(t.dtype).split(".")[-1]
+            if not okshape:
+                continue
+            op = {"op": "assign_many", "values": vals, "dtypes": dts, "S": S}
         elif u < 0.96:
             pid = w.choice(upd)
             if not current(pid).is_leaf:
@@ -743,7 +770,7 @@ def run_task(task):
 
 def _brief(op):
     o = dict(op)
-    for k in ("values", "delta"):
+    for k in ("values", "delta", "dtypes"):
         if k in o:
             o[k] = "..."
     if "targets" in o:
